@@ -15,7 +15,7 @@ RULE = ("every combination of store_in_memory x strict_format_checking x identif
         "explicit file size x entry point (class / interface helper) on factory databases and WAL histories; the "
         "normalised dumps are compared pairwise and with the Lean model under the same configuration, and each "
         "configuration is run twice. non-trivial = distinct (input, configuration) pair with an accepted dump")
-ASSUMPTIONS = ["a file object is an ordinary io.BufferedReader over the same bytes"]
+ASSUMPTIONS = ["a file object is an ordinary io.BufferedReader over the same bytes; between two library calls the caller may read from / seek in it (never during a call)"]
 
 
 def variants(path):
@@ -49,11 +49,20 @@ def dump_variant(path, v):
         return "ok " + D.SEP.join(secs)
     ident = None
     fh = None
+    between = None
     if v["kind"] == "fileobj":
         fh = open(path, "rb")
         ident = fh
+        state = [0]
+
+        def between():
+            # the caller uses its own file object between two library calls (hashing, peeking at the header, …)
+            state[0] += 1
+            fh.seek([0, 0, 100, 7][state[0] % 4], [2, 0, 0, 0][state[0] % 4])
+            if state[0] % 2:
+                fh.read(64)
     try:
-        s, db, e = D.dump_db(path, mem=v["mem"], strict=v["strict"], size=v["size"], identifier=ident)
+        s, db, e = D.dump_db(path, mem=v["mem"], strict=v["strict"], size=v["size"], identifier=ident, between=between)
         return s
     finally:
         if fh:
@@ -84,9 +93,12 @@ def run(ctx, n_quick=8, n_thorough=60):
                 for strict in (True, False):
                     C.compare_db_dump(ctx, b.path, "db.dump", mem=mem, strict=strict)
         r = ctx.rng
-        for i in range(6 if ctx.thorough() else 2):
+        # (a restarted log first: state leaking from one parse into the next shows on the logs parsed after it)
+        kinds = ["checkpoint_restart", None, "restart_after_rollback", "spill", None, "ddl"]
+        for i in range(6 if ctx.thorough() else 3):
             cfg = F.random_cfg(r, page_sizes=[512, 1024, 4096], small=True)
-            h = H.make_history(sc.path(f"h{i}"), cfg, r)
+            h = H.make_history(sc.path(f"h{i}"), cfg, r, kind=kinds[i % len(kinds)])
+            ctx.branch(f"history:{h.kind}")
             outs = []
             for mem in (False, True):
                 for strict in (True, False):
